@@ -782,6 +782,9 @@ class Executor:
                 if h is not None:
                     return h(self, a, b, st)
                 raise OutsideSubset("sequence equality", node)
+            for u, w in ((a, b), (b, a)):
+                if isinstance(u.td, TRefT) and u.z.eq(smt.NONE) and w.td in (TInt, TBool, TStr, TTag, TTagSet, TRange) :
+                    return z3.BoolVal(False)
             try:
                 x, y = smt.coerce_pair(a, b)
             except TypeError:
